@@ -895,6 +895,8 @@ def _deepcopy_state(v, memo=None):
         n = DictV([(k, _deepcopy_state(x)) for k, x in v.pairs])
     elif isinstance(v, SetV):
         n = SetV(list(v.items), v.frozen)
+    elif isinstance(v, bytearray):
+        return bytearray(v)
     else:
         return v
     if getattr(v, "ucls", None) is not None:
@@ -1758,7 +1760,7 @@ class Interp:
                     return self.truth(self.call(f, [v], {}))
         if v is None:
             return False
-        if isinstance(v, (int, float, str, bytes)):
+        if isinstance(v, (int, float, str, bytes, bytearray)):
             return bool(v)
         if isinstance(v, Seq):
             if any(type(i) is not Seg for i in v.items):
